@@ -156,3 +156,22 @@ def argsort_nonlocal_depth3_positions(case, why):
     rows that are too short (same root cause as F07): argsort([[],[[1]]], axis=0) gives [[],[[0]]]."""
     return (case.get("act") == "argsort" and _negaxis(case) >= 2 and case.get("fromty", "").count(" * ") >= 2
             and why.startswith("value differs"))
+
+
+def _nonzero_origin(L):
+    if not isinstance(L, dict):
+        return False
+    if L.get("c") == "ListOffset" and L.get("o") and L["o"][0] != 0:
+        return True
+    if L.get("c") == "List" and L.get("s") and min(L["s"]) != 0:
+        return True
+    if "x" in L and _nonzero_origin(L["x"]):
+        return True
+    return any(_nonzero_origin(x) for x in L.get("xs", []))
+
+
+def argsort_option_leaves_offset_origin(case, why):
+    """F17: argsort of lists with option-type leaves whose offsets do not start at zero (a sliced view): positions
+    are shifted by the origin (ListOffset(offsets=[1,3]) over option [5,4,3] = [[4,3]] gives [[0,-1]], not [[1,0]])."""
+    return (case.get("act") == "argsort" and _has_option(case.get("from")) and _nonzero_origin(case.get("from"))
+            and why.startswith("value differs"))
